@@ -57,12 +57,15 @@ func (inv *Invoice) scenarioSummary() *tax.ScenarioSummary {
 func (inv *Invoice) removePreviousScenarioNotes(ss *tax.ScenarioSet) {
 	for _, sn := range ss.Notes() {
 		n := org.NoteFromScenario(sn)
-		for i, n2 := range inv.Notes {
-			if n.SameAs(n2) {
-				// remove from array
-				inv.Notes = append(inv.Notes[:i], inv.Notes[i+1:]...)
+		// rebuild the list, as removing entries while iterating over the
+		// same slice fails when a note is present more than once
+		notes := make([]*org.Note, 0, len(inv.Notes))
+		for _, n2 := range inv.Notes {
+			if !n.SameAs(n2) {
+				notes = append(notes, n2)
 			}
 		}
+		inv.Notes = notes
 	}
 }
 
